@@ -13,6 +13,7 @@
   * `sep_preserved` / `sep_newFlow`        the no-aliasing invariant holds initially and after every operation
 -/
 import MitmVerif.Model.C40
+import MitmVerif.Model.C40_Http
 namespace MitmVerif.Props.C40
 open MitmVerif.C40
 
@@ -695,6 +696,158 @@ theorem copy_then_edits_independent (ip : Nat → Bool) (σ : Store V) (a n : Na
   obtain ⟨_, _, _, _, _, _, _, h7, h8⟩ := copy_fresh_id_equal_content_not_live σ a n f hs hf
   rw [(copy_independent ip ops _ a f hsc h7 hops).2, h8]
 
+-- ---------------------------------------------------------------- typed histories (Model/C40_Http.lean)
+/-- a typed history is the heap history of its compiled operations -/
+theorem runT_eq_run (ip : Nat → Bool) (ts : List TOp) :
+    ∀ σ : Store Comp, runT ip σ ts = run ip σ (compileAll ip σ ts) := by
+  induction ts with
+  | nil => intro σ; rfl
+  | cons t ts ih =>
+    intro σ
+    simp only [runT, List.foldl_cons, compileAll, run] at ih ⊢
+    exact ih (stepT ip σ t)
+
+private theorem compile_target (σ : Store Comp) (t : TOp) : (compile σ t).target = t.target := by
+  cases t with
+  | edit a e =>
+    simp only [compile, TOp.target]
+    split
+    · rfl
+    · split
+      · rfl
+      · split <;> rfl
+  | backup a => rfl
+  | revert a => rfl
+  | copy a n => rfl
+
+private theorem compile_revert (σ : Store Comp) (t : TOp) (a : Nat) (h : compile σ t = .revert a) : t = .revert a := by
+  cases t with
+  | edit b e =>
+    simp only [compile] at h
+    split at h
+    · cases h
+    · split at h
+      · cases h
+      · split at h <;> cases h
+  | backup b => cases h
+  | revert b => simp only [compile] at h; cases h; rfl
+  | copy b n => cases h
+
+private theorem compileAll_spec (ip : Nat → Bool) (ts : List TOp) :
+    ∀ σ : Store Comp, ∀ op ∈ compileAll ip σ ts,
+      (∃ t ∈ ts, op.target = t.target) ∧ (∀ a, op = .revert a → TOp.revert a ∈ ts) := by
+  induction ts with
+  | nil => intro σ op h; simp [compileAll] at h
+  | cons t ts ih =>
+    intro σ op h
+    simp only [compileAll, List.mem_cons] at h
+    rcases h with rfl | h
+    · exact ⟨⟨t, by simp, compile_target σ t⟩, fun a ha => by rw [compile_revert σ t a ha]; simp⟩
+    · obtain ⟨⟨t', ht', e⟩, hr⟩ := ih _ op h
+      exact ⟨⟨t', by simp [ht'], e⟩, fun a ha => by simp [hr a ha]⟩
+
+/-- **C40 (typed edits are predicted).** In a store without aliasing, a typed edit changes exactly component
+    `e.comp` of the addressed flow to `e.apply` of its previous state — id, liveness, backup and all other
+    components stay, and (by `typed_copy_independent`) so does every other flow. -/
+theorem typed_edit_predicts (ip : Nat → Bool) (σ : Store Comp) (a : Nat) (e : Edit) (f : FlowObj Comp)
+    (hs : Sep σ) (hf : σ.flows[a]? = some f) :
+    ∃ f', (stepT ip σ (.edit a e)).flows[a]? = some f' ∧ f'.id = f.id ∧ f'.live = f.live ∧ f'.backup = f.backup ∧
+      content (stepT ip σ (.edit a e)) f' =
+        match f.parts[e.comp]? with
+        | some ad => (content σ f).set e.comp (e.apply (σ.heap ad))
+        | none => content σ f := by
+  simp only [stepT, compile, hf]
+  cases hp : f.parts[e.comp]? with
+  | none =>
+    simp only [step]
+    obtain ⟨f', h1, h2, h3, h4, _, h6⟩ := (mutate_spec σ a e.comp (.flag false) hs).2.2 f hf
+    refine ⟨f', h1, h2, h3, h4, ?_⟩
+    rw [h6]
+    apply List.set_eq_of_length_le
+    have : f.parts.length ≤ e.comp := by
+      rcases Nat.lt_or_ge e.comp f.parts.length with h | h
+      · simp [List.getElem?_eq_getElem h] at hp
+      · exact h
+    simp [content, this]
+  | some ad =>
+    simp only
+    split
+    · simp only [step]
+      obtain ⟨f', h1, h2, h3, h4, _, h6⟩ := (rebind_spec σ a e.comp (e.apply (σ.heap ad)) hs).2.2 f hf
+      exact ⟨f', h1, h2, h3, h4, h6⟩
+    · simp only [step]
+      obtain ⟨f', h1, h2, h3, h4, _, h6⟩ := (mutate_spec σ a e.comp (e.apply (σ.heap ad)) hs).2.2 f hf
+      exact ⟨f', h1, h2, h3, h4, h6⟩
+
+/-- **C40 (revert ∘ edit* = id, typed).** Back up flow a, then run ANY typed history — edits of nested objects of
+    any flow (request/response attributes, headers, trailers, bodies, WebSocket messages, connection fields,
+    metadata, error, markers, comments), repeated backups, copies, reverts of other flows — without a revert of a;
+    reverting a gives back exactly the get_state() of backup time and clears the backup. -/
+theorem typed_revert_restores (ip : Nat → Bool) (σ : Store Comp) (a : Nat) (f : FlowObj Comp) (ts : List TOp)
+    (hs : Sep σ) (hf : σ.flows[a]? = some f) (hnb : f.backup = none) (hts : TOp.revert a ∉ ts) :
+    ∃ f', (revert ip (runT ip (backupOp σ a) ts) a).flows[a]? = some f' ∧
+          getState (revert ip (runT ip (backupOp σ a) ts) a) f' = (f.id, content σ f, none) ∧ f'.live = f.live := by
+  rw [runT_eq_run]
+  apply revert_restores_and_clears ip σ a f _ hs hf hnb
+  intro op hop heq
+  exact hts ((compileAll_spec ip ts _ op hop).2 a heq)
+
+/-- **C40 (copy independence, typed).** ANY typed history none of whose operations addresses flow b leaves b the
+    same object with the same get_state(): editing a copy's (or the original's) nested objects never shows in the
+    other. -/
+theorem typed_copy_independent (ip : Nat → Bool) (σ : Store Comp) (b : Nat) (fb : FlowObj Comp) (ts : List TOp)
+    (hs : Sep σ) (hfb : σ.flows[b]? = some fb) (hts : ∀ t ∈ ts, t.target ≠ b) :
+    (runT ip σ ts).flows[b]? = some fb ∧ getState (runT ip σ ts) fb = getState σ fb := by
+  rw [runT_eq_run]
+  apply copy_independent ip _ σ b fb hs hfb
+  intro op hop
+  obtain ⟨⟨t, ht, e⟩, _⟩ := compileAll_spec ip ts σ op hop
+  rw [e]; exact hts t ht
+
+/-- typed histories keep the no-aliasing invariant -/
+theorem typed_sep_preserved (ip : Nat → Bool) (σ : Store Comp) (ts : List TOp) (hs : Sep σ) : Sep (runT ip σ ts) := by
+  rw [runT_eq_run]; exact sep_preserved ip _ σ hs
+
+/-- along any typed history after a backup: modified() ⇔ the (typed) content differs from the backup content -/
+theorem typed_modified_after_backup (ip : Nat → Bool) (σ : Store Comp) (a : Nat) (f : FlowObj Comp) (ts : List TOp)
+    (hs : Sep σ) (hf : σ.flows[a]? = some f) (hnb : f.backup = none) (hts : TOp.revert a ∉ ts) :
+    ∃ g, (runT ip (backupOp σ a) ts).flows[a]? = some g ∧
+         (modified (runT ip (backupOp σ a) ts) g = true ↔ content (runT ip (backupOp σ a) ts) g ≠ content σ f) := by
+  rw [runT_eq_run]
+  apply modified_after_backup_history ip σ a f _ hs hf hnb
+  intro op hop heq
+  exact hts ((compileAll_spec ip ts _ op hop).2 a heq)
+
+-- Headers: the multi-dict operations do what their names say
+theorem hdrDel_not_has (h : Fields) (k : Bytes) : hdrHas (hdrDel h k) k = false := by
+  induction h with
+  | nil => rfl
+  | cons kv rest ih =>
+    simp only [hdrDel, List.filter_cons]
+    split
+    · rename_i hne
+      simp only [hdrHas, List.any_cons, Bool.or_eq_false_iff]
+      exact ⟨by simpa using hne, ih⟩
+    · exact ih
+
+private theorem setAllAux_has (k v : Bytes) : ∀ (h : Fields), hdrHas (setAllAux k v h false) k = true := by
+  intro h
+  induction h with
+  | nil => simp [setAllAux, hdrHas]
+  | cons kv rest ih =>
+    obtain ⟨k', v'⟩ := kv
+    simp only [setAllAux]
+    split
+    · rename_i he; simp [hdrHas, he]
+    · simp only [hdrHas, List.any_cons] at ih ⊢; simp [ih]
+
+theorem hdrSet_has (h : Fields) (k v : Bytes) : hdrHas (hdrSet h k v) k = true := setAllAux_has k v h
+
+/-- `.content = b` on a message without transfer-encoding leaves a content-length header behind -/
+theorem setContent_sets_length (m : Msg) (b : Bytes) (ht : hdrHas m.headers transferEncoding = false) :
+    (setContent m (some b)).content = some b ∧ hdrHas (setContent m (some b)).headers contentLength = true := by
+  simp [setContent, ht, hdrSet_has]
+
 -- ---------------------------------------------------------------- non-vacuity (concrete store, V = Nat)
 private def σ0 : Store Nat := newFlow (empty 0) 7 true [10, 20, 30]
 private def ipx : Nat → Bool := fun j => j % 2 == 0
@@ -711,5 +864,20 @@ example : (let σ := run ipx (backupOp σ0 0) [.mutate 0 1 21, .mutate 0 1 20]; 
 example : (let σ := revert ipx (run ipx (backupOp σ0 0) [.mutate 0 0 11, .copy 0 8]) 1
            (σ.flows.map (fun f => (f.id, content σ f)))) = [(7, [11, 20, 30]), (7, [10, 20, 30])] := by decide
 example : Sep σ0 := sep_newFlow _ _ _ _ (sep_empty 0)
+
+-- typed: Host header spelled "HoSt" is replaced case-insensitively, body assignment rewrites content-length
+private def m0 : Msg := { atoms := [1, 2], headers := [([0x48,0x6f,0x53,0x74], [0x61]), ([0x78], [0x31]), ([0x68,0x6f,0x73,0x74], [0x62])],
+                          content := none, trailers := none }
+example : (MsgEdit.hset [0x68,0x4f,0x73,0x54] [0x7a]).apply m0 =
+    { m0 with headers := [([0x48,0x6f,0x53,0x74], [0x7a]), ([0x78], [0x31])] } := by decide
+example : ((MsgEdit.content (some [1,2,3,4,5,6,7,8,9,10,11,12])).apply m0).headers.getLast? =
+    some (contentLength, [0x31, 0x32]) := by decide
+private def σt : Store Comp := newFlow (empty (.flag false)) 7 true
+  [.conn [1], .conn [2], .err none, .flag false, .atom 0, .atom 0, .mdata [], .atom 0, .atom 0, .req m0, .resp none, .ws none]
+-- backup, header edit + response assignment + copy + edit of the copy, revert: original back, copy keeps its edits
+example : (let σ := revert ipx (runT ipx (backupOp σt 0)
+              [.edit 0 (.req (.hdel [0x78])), .edit 0 (.respReplace (some m0)), .copy 0 8, .edit 1 (.req (.atom 0 9))]) 0
+           σ.flows.map (fun f => (f.id, content σ f == content σt (σt.flows.headD f), modified σ f))) =
+    [(7, true, false), (8, false, true)] := by decide
 
 end MitmVerif.Props.C40
